@@ -59,6 +59,7 @@ func ipamHistJobs(prop string, cloud bool, o Oracle, tier string) []Job {
 	var jobs []Job
 	for _, h := range ipamHistSystems(cloud) {
 		h := h
+		h.StopAtViolation = true
 		if prop == "C10" {
 			h.Step = func(w *world.World) { _ = oracleC10(w, nil, false) }
 			h.ModelCanon = func(h *HistSys, w *world.World) string {
